@@ -18,6 +18,7 @@ package meta
 import (
 	"bytes"
 	"regexp/syntax"
+	"unicode/utf8"
 )
 
 // AnchoredLiteralInfo contains extracted components for fast matching.
@@ -225,9 +226,8 @@ func extractLiteral(re *syntax.Regexp) []byte {
 	// Convert runes to bytes (assuming ASCII for now)
 	result := make([]byte, 0, len(re.Rune))
 	for _, r := range re.Rune {
-		if r > 255 {
-			// Non-ASCII literal - still valid but needs UTF-8 encoding
-			// For simplicity, encode as UTF-8
+		if r >= utf8.RuneSelf {
+			// Non-ASCII literal - needs UTF-8 encoding
 			buf := make([]byte, 4)
 			n := encodeRuneToBytes(r, buf)
 			result = append(result, buf[:n]...)
